@@ -27,7 +27,7 @@ _ids = itertools.count(1)
 
 
 class FNode(CNode):
-    __slots__ = ("_sb", "_se", "_text", "origin")
+    __slots__ = ("_sb", "_se", "_text", "origin", "_tsub", "_dirty")
 
     def __init__(self, d, tu, parent=None):
         # do not build children from d["inner"]: they are attached explicitly
@@ -40,6 +40,8 @@ class FNode(CNode):
         self._sb = self._se = -1
         self._text = None
         self.origin = None
+        self._tsub = None     # identifier -> replacement text (parameters substituted by arguments, renamed locals)
+        self._dirty = False   # a descendant was replaced: the text is re-assembled from the children
 
     @property
     def begin(self):
@@ -59,7 +61,30 @@ class FNode(CNode):
             return self._text
         if self._sb < 0 or self._se < 0:
             return " ".join(c.src for c in self.children)
-        return self.tu.text[self._sb:self._se]
+        if self._dirty:
+            # splice the current text of the children into the original text of this node
+            kids = sorted([c for c in self.children if isinstance(c, FNode) and c._sb >= self._sb and c._se <= self._se and c._sb >= 0],
+                          key=lambda c: c._sb)
+            out = []
+            pos = self._sb
+            for c in kids:
+                if c._sb < pos:
+                    continue
+                seg = self.tu.text[pos:c._sb]
+                out.append(self._sub_text(seg))
+                out.append(c.src)
+                pos = c._se
+            out.append(self._sub_text(self.tu.text[pos:self._se]))
+            return "".join(out)
+        t = self.tu.text[self._sb:self._se]
+        return self._sub_text(t)
+
+    def _sub_text(self, t):
+        if self._tsub:
+            import re
+            sub = self._tsub
+            t = re.sub(r"(?<![A-Za-z0-9_>.])[A-Za-z_][A-Za-z0-9_]*", lambda m_: sub.get(m_.group(0), m_.group(0)), t)
+        return t
 
 
 def _orig_span(n):
@@ -68,11 +93,17 @@ def _orig_span(n):
     return n.begin, n.end
 
 
-def clone(n, tu, subst=None, rename=None, parent=None):
+def clone(n, tu, subst=None, rename=None, parent=None, _tsub=None):
     """deep copy of a CNode/FNode tree as FNodes; DeclRefExprs to names in `subst` are replaced by clones of the mapped
     expressions, declarations/references of names in `rename` are renamed"""
     subst = subst or {}
     rename = rename or {}
+    if _tsub is None and (subst or rename):
+        _tsub = {}
+        for k_, a_ in subst.items():
+            t_ = a_.src
+            _tsub[k_] = t_ if t_.replace("_", "").replace("->", "").replace(".", "").isalnum() else "(" + t_ + ")"
+        _tsub.update(rename)
     if n.kind == "DeclRefExpr" and n.ref in subst and n.refkind in ("ParmVarDecl", "VarDecl"):
         c = clone(subst[n.ref], tu, None, None, parent)
         # keep the spelled text of the argument; wrap nothing: analyses strip casts/parens anyway
@@ -90,7 +121,16 @@ def clone(n, tu, subst=None, rename=None, parent=None):
     if isinstance(n, FNode):
         f._text = n._text
         f.origin = n.origin
-    f.children = [clone(c, tu, subst, rename, f) for c in n.children]
+        f._tsub = dict(n._tsub) if n._tsub else None
+    if _tsub:
+        # compose: text of an already substituted node is substituted again
+        if f._tsub:
+            comp = {k_: v_ for k_, v_ in f._tsub.items()}
+            comp.update({k_: v_ for k_, v_ in _tsub.items() if k_ not in comp})
+            f._tsub = comp
+        else:
+            f._tsub = _tsub
+    f.children = [clone(c, tu, subst, rename, f, _tsub) for c in n.children]
     return f
 
 
@@ -218,6 +258,10 @@ class Flattener(object):
         for x in body.walk():
             if x.origin is None:
                 x.origin = name
+        holder0 = mk(self.tu, "FunctionDecl", [body], name=self.fn.name)
+        self.inlined.extend(inline_expressions(self.tu, holder0))
+        body = holder0.children[0]
+        body.parent = None
         return name, callee, body, k
 
     def label(self, k, what, like):
@@ -481,6 +525,11 @@ def inline_expressions(tu, root, depth=3):
                 if y.origin is None:
                     y.origin = callee.name
             par = mk(tu, "ParenExpr", [sub], like=x, type={"qualType": x.type})
+            par._text = "(" + sub.src + ")"
+            a_ = x.parent
+            while a_ is not None and isinstance(a_, FNode):
+                a_._dirty = True
+                a_ = a_.parent
             par.parent = x.parent
             i = [j for j, c in enumerate(x.parent.children) if c is x][0]
             x.parent.children[i] = par
